@@ -268,25 +268,7 @@ def rfc4515_sentence(text: str) -> bool:
             break
 
 
-class Hang(BaseException):
-    """a call did not return within its CPU budget"""
-
-
-def guarded(fn, seconds=5.0):
-    """fn() under a CPU-time limit of this process (ITIMER_VIRTUAL): pure-Python loops that stop advancing are interrupted between
-    bytecodes and reported, instead of hanging the check"""
-    import signal
-
-    def on_alarm(signum, frame):
-        raise Hang()
-
-    old = signal.signal(signal.SIGVTALRM, on_alarm)
-    signal.setitimer(signal.ITIMER_VIRTUAL, seconds)
-    try:
-        return fn()
-    finally:
-        signal.setitimer(signal.ITIMER_VIRTUAL, 0)
-        signal.signal(signal.SIGVTALRM, old)
+from guard import Hang, guarded  # noqa: E402,F401  (CPU-time guard for calls into the library)
 
 
 # whitespace other than U+0020 (str.isspace() / bytes.isspace() classes, incl. surrogate-escaped 0x85 / 0xA0) at every structural position:
